@@ -2594,389 +2594,12 @@ def orc_hashseed(case):
 # `if False:  # pending triage: <class>` for a discovered sweep -- until the main session has repaired or recorded them;
 # the number of skipped registrations is stated in the domain string of the run.  label -> codes of the families
 # (T typed, U units, C containers, G groups, S sizes, Q sequence, O outfile, H hashseed) in which it was observed.
-PENDING_NEW = {        # failure kinds that do NOT occur in the base sweep (reported to the main session with minimal inputs)
-    'bootstrap_sample:child-array-write-relabels-parent.rdms': 'C',
-    'bootstrap_sample:parent-array-write-relabels-child': 'C',
-    'extract_variances:child-array-write-rewrites-parent.variance': 'U',
-    'from_partials:child-array-write-relabels-parent.list_of_rdms': 'C',
-    'from_partials:parent-array-write-relabels-child': 'C',
-    'sets_k_fold:child-array-write-relabels-parent.rdms': 'C',
-    'sets_k_fold:parent-array-write-relabels-child': 'C',
-    'sets_random:child-array-write-relabels-parent.rdms': 'C',
-    'sets_random:parent-array-write-relabels-child': 'C',
-}
-# the same (callable, argument, in-place operation) as one of the 368 OPEN keys of the base sweep in known_findings.json when this
-# was written (/repo b07a1529), observed again on the inputs of these families: one line '<label> <family codes>' each
-PENDING_REOBSERVED = dict(ln.rsplit(' ', 1) for ln in """
-Dataset.split_channel:child-array-write-relabels-parent.self CH
-Dataset.split_channel:parent-array-write-relabels-child CH
-Dataset.split_obs:child-array-write-relabels-parent.self CH
-Dataset.split_obs:parent-array-write-relabels-child CH
-Dataset.subset_channel:child-array-write-relabels-parent.self CH
-Dataset.subset_channel:parent-array-write-relabels-child CH
-Dataset.subset_obs:child-array-write-relabels-parent.self CH
-Dataset.subset_obs:parent-array-write-relabels-child CH
-DatasetBase.__init__:child-array-write-relabels-parent.channel_descriptors CH
-DatasetBase.__init__:child-array-write-relabels-parent.obs_descriptors CH
-DatasetBase.__init__:child-array-write-rewrites-parent.measurements TUCGSQH
-DatasetBase.__init__:parent-array-write-rewrites-child TUCGSQH
-DatasetBase.to_dict:child-array-write-rewrites-parent.self TUCGSQH
-DatasetBase.to_dict:parent-array-write-rewrites-child TUCGSQH
-Model.to_dict:child-array-write-rewrites-parent.self TUCGSQH
-Model.to_dict:parent-append-relabels-child TUCGSQH
-Model.to_dict:parent-array-write-rewrites-child TUCGSQH
-Model.to_dict:parent-reorder-relabels-child TUCGSQH
-Model.to_dict:parent-sort_by-relabels-child TUCGSQH
-ModelFamily.__init__:child-append-rewrites-parent.models TUCGSQH
-ModelFamily.__init__:child-array-write-rewrites-parent.models TUCGSQH
-ModelFamily.__init__:child-reorder-rewrites-parent.models TUCGSQH
-ModelFamily.__init__:child-sort_by-rewrites-parent.models TUCGSQH
-ModelFamily.__init__:parent-append-rewrites-child TUCGSQH
-ModelFamily.__init__:parent-array-write-rewrites-child TUCGSQH
-ModelFamily.__init__:parent-reorder-rewrites-child TUCGSQH
-ModelFamily.__init__:parent-sort_by-rewrites-child TUCGSQH
-ModelFamily.get_family_member:child-append-rewrites-parent.self TUCGSQH
-ModelFamily.get_family_member:child-array-write-rewrites-parent.self TUCGSQH
-ModelFamily.get_family_member:child-reorder-rewrites-parent.self TUCGSQH
-ModelFamily.get_family_member:child-sort_by-rewrites-parent.self TUCGSQH
-ModelFamily.get_family_member:parent-append-rewrites-child TUCGSQH
-ModelFamily.get_family_member:parent-array-write-rewrites-child TUCGSQH
-ModelFamily.get_family_member:parent-reorder-rewrites-child TUCGSQH
-ModelFamily.get_family_member:parent-sort_by-rewrites-child TUCGSQH
-ModelFixed.__init__:child-append-rewrites-parent.rdm TUCGSQH
-ModelFixed.__init__:child-array-write-rewrites-parent.rdm TUCGSQH
-ModelFixed.__init__:child-reorder-rewrites-parent.rdm TUCGSQH
-ModelFixed.__init__:child-sort_by-rewrites-parent.rdm TUCGSQH
-ModelFixed.__init__:parent-append-rewrites-child TUCGSQH
-ModelFixed.__init__:parent-array-write-rewrites-child TUCGSQH
-ModelFixed.__init__:parent-reorder-rewrites-child TUCGSQH
-ModelFixed.__init__:parent-sort_by-rewrites-child TUCGSQH
-ModelFixed.predict:child-array-write-rewrites-parent.self TUCGSQH
-ModelFixed.predict:parent-array-write-rewrites-child TUCGSQH
-ModelFixed.predict_rdm:child-append-rewrites-parent.self TUCGSQH
-ModelFixed.predict_rdm:child-array-write-rewrites-parent.self TUCGSQH
-ModelFixed.predict_rdm:child-reorder-rewrites-parent.self TUCGSQH
-ModelFixed.predict_rdm:child-sort_by-rewrites-parent.self TUCGSQH
-ModelFixed.predict_rdm:parent-append-rewrites-child TUCGSQH
-ModelFixed.predict_rdm:parent-array-write-rewrites-child TUCGSQH
-ModelFixed.predict_rdm:parent-reorder-rewrites-child TUCGSQH
-ModelFixed.predict_rdm:parent-sort_by-rewrites-child TUCGSQH
-ModelInterpolate.__init__:child-append-rewrites-parent.rdm TUCGSQH
-ModelInterpolate.__init__:child-array-write-rewrites-parent.rdm TUCGSQH
-ModelInterpolate.__init__:child-reorder-rewrites-parent.rdm TUCGSQH
-ModelInterpolate.__init__:child-sort_by-rewrites-parent.rdm TUCGSQH
-ModelInterpolate.__init__:parent-append-rewrites-child TUCGSQH
-ModelInterpolate.__init__:parent-array-write-rewrites-child TUCGSQH
-ModelInterpolate.__init__:parent-reorder-rewrites-child TUCGSQH
-ModelInterpolate.__init__:parent-sort_by-rewrites-child TUCGSQH
-ModelInterpolate.predict_rdm:child-array-write-relabels-parent.self CH
-ModelInterpolate.predict_rdm:child-reorder-relabels-parent.self TUCGSQH
-ModelInterpolate.predict_rdm:child-sort_by-relabels-parent.self TUCGSQH
-ModelInterpolate.predict_rdm:parent-array-write-relabels-child CH
-ModelInterpolate.predict_rdm:parent-reorder-relabels-child TUCGSQH
-ModelInterpolate.predict_rdm:parent-sort_by-relabels-child TUCGSQH
-ModelSelect.__init__:child-append-rewrites-parent.rdm TUCGSQH
-ModelSelect.__init__:child-array-write-rewrites-parent.rdm TUCGSQH
-ModelSelect.__init__:child-reorder-rewrites-parent.rdm TUCGSQH
-ModelSelect.__init__:child-sort_by-rewrites-parent.rdm TUCGSQH
-ModelSelect.__init__:parent-append-rewrites-child TUCGSQH
-ModelSelect.__init__:parent-array-write-rewrites-child TUCGSQH
-ModelSelect.__init__:parent-reorder-rewrites-child TUCGSQH
-ModelSelect.__init__:parent-sort_by-rewrites-child TUCGSQH
-ModelSelect.predict:child-array-write-rewrites-parent.self TUCGSQH
-ModelSelect.predict:parent-array-write-rewrites-child TUCGSQH
-ModelSelect.predict_rdm:child-array-write-relabels-parent.self CH
-ModelSelect.predict_rdm:child-reorder-relabels-parent.self TUCGSQH
-ModelSelect.predict_rdm:child-sort_by-relabels-parent.self TUCGSQH
-ModelSelect.predict_rdm:parent-array-write-relabels-child CH
-ModelSelect.predict_rdm:parent-reorder-relabels-child TUCGSQH
-ModelSelect.predict_rdm:parent-sort_by-relabels-child TUCGSQH
-ModelWeighted.__init__:child-append-rewrites-parent.rdm TUCGSQH
-ModelWeighted.__init__:child-array-write-rewrites-parent.rdm TUCGSQH
-ModelWeighted.__init__:child-reorder-rewrites-parent.rdm TUCGSQH
-ModelWeighted.__init__:child-sort_by-rewrites-parent.rdm TUCGSQH
-ModelWeighted.__init__:parent-append-rewrites-child TUCGSQH
-ModelWeighted.__init__:parent-array-write-rewrites-child TUCGSQH
-ModelWeighted.__init__:parent-reorder-rewrites-child TUCGSQH
-ModelWeighted.__init__:parent-sort_by-rewrites-child TUCGSQH
-ModelWeighted.predict_rdm:child-array-write-relabels-parent.self CH
-ModelWeighted.predict_rdm:child-reorder-relabels-parent.self TUCGSQH
-ModelWeighted.predict_rdm:child-sort_by-relabels-parent.self TUCGSQH
-ModelWeighted.predict_rdm:parent-array-write-relabels-child CH
-ModelWeighted.predict_rdm:parent-reorder-relabels-child TUCGSQH
-ModelWeighted.predict_rdm:parent-sort_by-relabels-child TUCGSQH
-RDMs.__getitem__:child-array-write-relabels-parent.self CH
-RDMs.__getitem__:child-reorder-relabels-parent.self TUCGSQH
-RDMs.__getitem__:child-sort_by-relabels-parent.self TUCGSQH
-RDMs.__getitem__:parent-array-write-relabels-child CH
-RDMs.__getitem__:parent-reorder-relabels-child TUCGSQH
-RDMs.__getitem__:parent-sort_by-relabels-child TUCGSQH
-RDMs.__init__:child-append-relabels-parent.rdm_descriptors TUCGSQH
-RDMs.__init__:child-array-write-relabels-parent.pattern_descriptors H
-RDMs.__init__:child-array-write-relabels-parent.rdm_descriptors H
-RDMs.__init__:child-array-write-rewrites-parent.dissimilarities TUCGSQH
-RDMs.__init__:child-reorder-relabels-parent.pattern_descriptors TUCGSQH
-RDMs.__init__:child-sort_by-relabels-parent.pattern_descriptors TUCGSQH
-RDMs.__init__:modifies-rdm_descriptors TUCGSQH
-RDMs.__init__:parent-array-write-relabels-child H
-RDMs.__init__:parent-array-write-rewrites-child TUCGSQH
-RDMs.subsample:child-array-write-relabels-parent.self CH
-RDMs.subsample:child-reorder-relabels-parent.self TUCGSQH
-RDMs.subsample:child-sort_by-relabels-parent.self TUCGSQH
-RDMs.subsample:parent-array-write-relabels-child CH
-RDMs.subsample:parent-reorder-relabels-child TUCGSQH
-RDMs.subsample:parent-sort_by-relabels-child TUCGSQH
-RDMs.subsample_pattern:child-append-relabels-parent.self TUCGSQH
-RDMs.subsample_pattern:child-array-write-relabels-parent.self CH
-RDMs.subsample_pattern:parent-append-relabels-child TUCGSQH
-RDMs.subsample_pattern:parent-array-write-relabels-child CH
-RDMs.subset:child-array-write-relabels-parent.self CH
-RDMs.subset:child-reorder-relabels-parent.self TUCGSQH
-RDMs.subset:child-sort_by-relabels-parent.self TUCGSQH
-RDMs.subset:parent-array-write-relabels-child CH
-RDMs.subset:parent-reorder-relabels-child TUCGSQH
-RDMs.subset:parent-sort_by-relabels-child TUCGSQH
-RDMs.subset_pattern:child-append-relabels-parent.self TUCGSQH
-RDMs.subset_pattern:child-array-write-relabels-parent.self CH
-RDMs.subset_pattern:parent-append-relabels-child TUCGSQH
-RDMs.subset_pattern:parent-array-write-relabels-child CH
-RDMs.to_dict:child-array-write-rewrites-parent.self TUCGSQH
-RDMs.to_dict:parent-append-relabels-child TUCGSQH
-RDMs.to_dict:parent-array-write-rewrites-child TUCGSQH
-RDMs.to_dict:parent-reorder-relabels-child TUCGSQH
-RDMs.to_dict:parent-sort_by-relabels-child TUCGSQH
-Result.__init__:child-append-rewrites-parent.models TUCGSQH
-Result.__init__:child-array-write-rewrites-parent.models TUCGSQH
-Result.__init__:child-array-write-rewrites-parent.variances TUCGSQH
-Result.__init__:child-reorder-rewrites-parent.models TUCGSQH
-Result.__init__:child-sort_by-rewrites-parent.models TUCGSQH
-Result.__init__:parent-append-rewrites-child TUCGSQH
-Result.__init__:parent-array-write-rewrites-child TUCGSQH
-Result.__init__:parent-reorder-rewrites-child TUCGSQH
-Result.__init__:parent-sort_by-rewrites-child TUCGSQH
-Result.get_model_var:child-array-write-rewrites-parent.self TUCGSQH
-Result.get_model_var:parent-array-write-rewrites-child TUCGSQH
-Result.get_noise_ceil:child-array-write-rewrites-parent.self TUCGSQH
-Result.get_noise_ceil:parent-array-write-rewrites-child TUCGSQH
-Result.to_dict:child-array-write-rewrites-parent.self TUCGSQH
-Result.to_dict:parent-append-relabels-child TUCGSQH
-Result.to_dict:parent-array-write-rewrites-child TUCGSQH
-Result.to_dict:parent-reorder-relabels-child TUCGSQH
-Result.to_dict:parent-sort_by-relabels-child TUCGSQH
-TemporalDataset.__init__:child-array-write-relabels-parent.channel_descriptors H
-TemporalDataset.__init__:child-array-write-relabels-parent.obs_descriptors CH
-TemporalDataset.__init__:child-array-write-relabels-parent.time_descriptors TUCGSQH
-TemporalDataset.__init__:child-array-write-rewrites-parent.measurements TUCGSQH
-TemporalDataset.__init__:parent-array-write-rewrites-child TUCGSQH
-TemporalDataset.convert_to_dataset:child-array-write-relabels-parent.self H
-TemporalDataset.convert_to_dataset:parent-array-write-relabels-child H
-TemporalDataset.split_channel:child-array-write-relabels-parent.self TUCGSQH
-TemporalDataset.split_channel:parent-array-write-relabels-child TUCGSQH
-TemporalDataset.split_obs:child-array-write-relabels-parent.self TUCGSQH
-TemporalDataset.split_obs:parent-array-write-relabels-child TUCGSQH
-TemporalDataset.split_time:child-array-write-relabels-parent.self CH
-TemporalDataset.split_time:parent-array-write-relabels-child CH
-TemporalDataset.subset_channel:child-array-write-relabels-parent.self TUCGSQH
-TemporalDataset.subset_channel:parent-array-write-relabels-child TUCGSQH
-TemporalDataset.subset_obs:child-array-write-relabels-parent.self TUCGSQH
-TemporalDataset.subset_obs:parent-array-write-relabels-child TUCGSQH
-TemporalDataset.subset_time:child-array-write-relabels-parent.self CH
-TemporalDataset.subset_time:parent-array-write-relabels-child CH
-TemporalDataset.time_as_channels:child-array-write-rewrites-parent.self TUCGSQH
-TemporalDataset.time_as_channels:parent-array-write-rewrites-child TUCGSQH
-TemporalDataset.time_as_observations:child-array-write-relabels-parent.self H
-TemporalDataset.time_as_observations:parent-array-write-relabels-child H
-TemporalDataset.to_dict:child-array-write-rewrites-parent.self TUCGSQH
-TemporalDataset.to_dict:parent-array-write-rewrites-child TUCGSQH
-batch_to_matrices:child-array-write-rewrites-parent.x TUCGSQH
-batch_to_matrices:parent-array-write-rewrites-child TUCGSQH
-batch_to_vectors:child-array-write-rewrites-parent.x TUCGSQH
-batch_to_vectors:parent-array-write-rewrites-child TUCGSQH
-bootstrap_crossval:child-append-rewrites-parent.models TUCGSH
-bootstrap_crossval:child-array-write-rewrites-parent.models TUCGSH
-bootstrap_crossval:child-reorder-rewrites-parent.models TUCGSH
-bootstrap_crossval:child-sort_by-rewrites-parent.models TUCGSH
-bootstrap_crossval:parent-append-rewrites-child TUCGSH
-bootstrap_crossval:parent-array-write-rewrites-child TUCGSH
-bootstrap_crossval:parent-reorder-rewrites-child TUCGSH
-bootstrap_crossval:parent-sort_by-rewrites-child TUCGSH
-bootstrap_sample_pattern:child-append-relabels-parent.rdms TUCGSQH
-bootstrap_sample_pattern:child-array-write-relabels-parent.rdms CH
-bootstrap_sample_pattern:parent-append-relabels-child TUCGSQH
-bootstrap_sample_pattern:parent-array-write-relabels-child CH
-bootstrap_sample_rdm:child-array-write-relabels-parent.rdms CH
-bootstrap_sample_rdm:child-reorder-relabels-parent.rdms TUCGSQH
-bootstrap_sample_rdm:child-sort_by-relabels-parent.rdms TUCGSQH
-bootstrap_sample_rdm:parent-array-write-relabels-child CH
-bootstrap_sample_rdm:parent-reorder-relabels-child TUCGSQH
-bootstrap_sample_rdm:parent-sort_by-relabels-child TUCGSQH
-calc_rdm:child-array-write-rewrites-parent.noise TUCGQH
-calc_rdm:parent-array-write-relabels-child TUCGQH
-calc_rdm_crossnobis:child-array-write-rewrites-parent.noise TUCQH
-calc_rdm_crossnobis:parent-array-write-relabels-child TUCQH
-calc_rdm_mahalanobis:child-array-write-rewrites-parent.noise TUCGQH
-calc_rdm_mahalanobis:parent-array-write-relabels-child TUCGQH
-calc_rdm_movie:child-array-write-relabels-parent.dataset TUCGSQH
-calc_rdm_movie:parent-array-write-relabels-child TUCGSQH
-calc_rdm_unbalanced:child-array-write-rewrites-parent.noise TUCGSQH
-calc_rdm_unbalanced:parent-array-write-relabels-child TUCGSQH
-concat:child-array-write-relabels-parent.rdms CH
-concat:child-reorder-relabels-parent.rdms TUCGSQH
-concat:child-sort_by-relabels-parent.rdms TUCGSQH
-concat:modifies-rdms.dissimilarities TUCGSQH
-concat:modifies-rdms.pattern_descriptors TUCGSQH
-concat:parent-array-write-relabels-child CH
-concat:parent-reorder-relabels-child TUCGSQH
-concat:parent-sort_by-relabels-child TUCGSQH
-crossval:child-append-rewrites-parent.models TUCGSH
-crossval:child-array-write-rewrites-parent.models TUCGSH
-crossval:child-reorder-rewrites-parent.models TUCGSH
-crossval:child-sort_by-rewrites-parent.models TUCGSH
-crossval:parent-append-rewrites-child TUCGSH
-crossval:parent-array-write-rewrites-child TUCGSH
-crossval:parent-reorder-rewrites-child TUCGSH
-crossval:parent-sort_by-rewrites-child TUCGSH
-dataset_from_dict:child-array-write-rewrites-parent.data_dict TUCGSQH
-dataset_from_dict:parent-array-write-rewrites-child TUCGSQH
-dict_to_list:modifies-d_dict TUCGSQH
-eval_bootstrap:child-append-rewrites-parent.models TUCGSH
-eval_bootstrap:child-array-write-rewrites-parent.models TUCGSH
-eval_bootstrap:child-reorder-rewrites-parent.models TUCGSH
-eval_bootstrap:child-sort_by-rewrites-parent.models TUCGSH
-eval_bootstrap:parent-append-rewrites-child TUCGSH
-eval_bootstrap:parent-array-write-rewrites-child TUCGSH
-eval_bootstrap:parent-reorder-rewrites-child TUCGSH
-eval_bootstrap:parent-sort_by-rewrites-child TUCGSH
-eval_bootstrap_pattern:child-append-rewrites-parent.models TUCGSH
-eval_bootstrap_pattern:child-array-write-rewrites-parent.models TUCGSH
-eval_bootstrap_pattern:child-reorder-rewrites-parent.models TUCGSH
-eval_bootstrap_pattern:child-sort_by-rewrites-parent.models TUCGSH
-eval_bootstrap_pattern:parent-append-rewrites-child TUCGSH
-eval_bootstrap_pattern:parent-array-write-rewrites-child TUCGSH
-eval_bootstrap_pattern:parent-reorder-rewrites-child TUCGSH
-eval_bootstrap_pattern:parent-sort_by-rewrites-child TUCGSH
-eval_bootstrap_rdm:child-append-rewrites-parent.models TUCGSH
-eval_bootstrap_rdm:child-array-write-rewrites-parent.models TUCGSH
-eval_bootstrap_rdm:child-reorder-rewrites-parent.models TUCGSH
-eval_bootstrap_rdm:child-sort_by-rewrites-parent.models TUCGSH
-eval_bootstrap_rdm:parent-append-rewrites-child TUCGSH
-eval_bootstrap_rdm:parent-array-write-rewrites-child TUCGSH
-eval_bootstrap_rdm:parent-reorder-rewrites-child TUCGSH
-eval_bootstrap_rdm:parent-sort_by-rewrites-child TUCGSH
-eval_dual_bootstrap:child-append-rewrites-parent.models TUCGSH
-eval_dual_bootstrap:child-array-write-rewrites-parent.models TUCGSH
-eval_dual_bootstrap:child-reorder-rewrites-parent.models TUCGSH
-eval_dual_bootstrap:child-sort_by-rewrites-parent.models TUCGSH
-eval_dual_bootstrap:parent-append-rewrites-child TUCGSH
-eval_dual_bootstrap:parent-array-write-rewrites-child TUCGSH
-eval_dual_bootstrap:parent-reorder-rewrites-child TUCGSH
-eval_dual_bootstrap:parent-sort_by-rewrites-child TUCGSH
-eval_dual_bootstrap_random:child-append-rewrites-parent.models TUCGSH
-eval_dual_bootstrap_random:child-array-write-rewrites-parent.models TUCGSH
-eval_dual_bootstrap_random:child-reorder-rewrites-parent.models TUCGSH
-eval_dual_bootstrap_random:child-sort_by-rewrites-parent.models TUCGSH
-eval_dual_bootstrap_random:parent-append-rewrites-child TUCGSH
-eval_dual_bootstrap_random:parent-array-write-rewrites-child TUCGSH
-eval_dual_bootstrap_random:parent-reorder-rewrites-child TUCGSH
-eval_dual_bootstrap_random:parent-sort_by-rewrites-child TUCGSH
-eval_fixed:child-append-rewrites-parent.models TUCGSH
-eval_fixed:child-array-write-rewrites-parent.models TUCGSH
-eval_fixed:child-reorder-rewrites-parent.models TUCGSH
-eval_fixed:child-sort_by-rewrites-parent.models TUCGSH
-eval_fixed:parent-append-rewrites-child TUCGSH
-eval_fixed:parent-array-write-rewrites-child TUCGSH
-eval_fixed:parent-reorder-rewrites-child TUCGSH
-eval_fixed:parent-sort_by-rewrites-child TUCGSH
-evaluate_models_searchlight:child-append-rewrites-parent.models TUCGSH
-evaluate_models_searchlight:child-array-write-rewrites-parent.models TUCGSH
-evaluate_models_searchlight:child-reorder-rewrites-parent.models TUCGSH
-evaluate_models_searchlight:child-sort_by-rewrites-parent.models TUCGSH
-evaluate_models_searchlight:parent-append-rewrites-child TUCGSH
-evaluate_models_searchlight:parent-array-write-rewrites-child TUCGSH
-evaluate_models_searchlight:parent-reorder-rewrites-child TUCGSH
-evaluate_models_searchlight:parent-sort_by-rewrites-child TUCGSH
-extract_variances:parent-array-write-rewrites-child TUCGSQH
-inference_util.pool_rdm:child-array-write-relabels-parent.rdms CH
-inference_util.pool_rdm:child-reorder-relabels-parent.rdms TUCGSQH
-inference_util.pool_rdm:child-sort_by-relabels-parent.rdms TUCGSQH
-inference_util.pool_rdm:parent-array-write-relabels-child CH
-inference_util.pool_rdm:parent-reorder-relabels-child TUCGSQH
-inference_util.pool_rdm:parent-sort_by-relabels-child TUCGSQH
-input_check_model:child-append-rewrites-parent.models TUCGSQH
-input_check_model:child-array-write-rewrites-parent.models TUCGSQH
-input_check_model:child-array-write-rewrites-parent.theta TUCGSQH
-input_check_model:child-reorder-rewrites-parent.models TUCGSQH
-input_check_model:child-sort_by-rewrites-parent.models TUCGSQH
-input_check_model:parent-append-rewrites-child TUCGSQH
-input_check_model:parent-array-write-rewrites-child TUCGSQH
-input_check_model:parent-reorder-rewrites-child TUCGSQH
-input_check_model:parent-sort_by-rewrites-child TUCGSQH
-inverse_permute_rdms:child-array-write-relabels-parent.rdms CH
-inverse_permute_rdms:parent-array-write-relabels-child CH
-model_from_dict:child-append-relabels-parent.model_dict TUCGSQH
-model_from_dict:child-array-write-rewrites-parent.model_dict TUCGSQH
-model_from_dict:child-reorder-relabels-parent.model_dict TUCGSQH
-model_from_dict:child-sort_by-relabels-parent.model_dict TUCGSQH
-model_from_dict:modifies-model_dict[rdm][pattern_descriptors] CH
-model_from_dict:modifies-model_dict[rdm][rdm_descriptors] CH
-model_from_dict:parent-array-write-rewrites-child TUCGSQH
-parse_input_descriptor:child-array-write-relabels-parent.descriptors H
-parse_input_descriptor:parent-array-write-rewrites-child H
-permute_rdms:child-array-write-relabels-parent.rdms CH
-permute_rdms:parent-array-write-relabels-child CH
-pooling.pool_rdm:child-array-write-relabels-parent.rdms CH
-pooling.pool_rdm:child-reorder-relabels-parent.rdms TUCGSQH
-pooling.pool_rdm:child-sort_by-relabels-parent.rdms TUCGSQH
-pooling.pool_rdm:parent-array-write-relabels-child CH
-pooling.pool_rdm:parent-reorder-relabels-child TUCGSQH
-pooling.pool_rdm:parent-sort_by-relabels-child TUCGSQH
-rdms_from_dict:child-append-relabels-parent.rdm_dict TUCGSQH
-rdms_from_dict:child-array-write-rewrites-parent.rdm_dict TUCGSQH
-rdms_from_dict:child-reorder-relabels-parent.rdm_dict TUCGSQH
-rdms_from_dict:child-sort_by-relabels-parent.rdm_dict TUCGSQH
-rdms_from_dict:modifies-rdm_dict[pattern_descriptors] TUCGSQH
-rdms_from_dict:modifies-rdm_dict[rdm_descriptors] CH
-rdms_from_dict:parent-array-write-rewrites-child TUCGSQH
-result_from_dict:child-append-relabels-parent.result_dict TUCGSQH
-result_from_dict:child-array-write-rewrites-parent.result_dict TUCGSQH
-result_from_dict:child-reorder-relabels-parent.result_dict TUCGSQH
-result_from_dict:child-sort_by-relabels-parent.result_dict TUCGSQH
-result_from_dict:modifies-result_dict[models][model_*][rdm][pattern_descriptors] CH
-result_from_dict:modifies-result_dict[models][model_*][rdm][rdm_descriptors] CH
-result_from_dict:parent-array-write-rewrites-child TUCGSQH
-sets_k_fold_pattern:child-append-relabels-parent.rdms TUCGSQH
-sets_k_fold_pattern:child-array-write-relabels-parent.rdms CH
-sets_k_fold_pattern:parent-append-relabels-child TUCGSQH
-sets_k_fold_pattern:parent-array-write-relabels-child CH
-sets_k_fold_rdm:child-array-write-relabels-parent.rdms CH
-sets_k_fold_rdm:child-reorder-relabels-parent.rdms CH
-sets_k_fold_rdm:child-sort_by-relabels-parent.rdms TUCGSQH
-sets_k_fold_rdm:parent-array-write-relabels-child CH
-sets_k_fold_rdm:parent-reorder-relabels-child TUCGSQH
-sets_k_fold_rdm:parent-sort_by-relabels-child TUCGSQH
-sets_leave_one_out_pattern:child-append-relabels-parent.rdms TUCGSQH
-sets_leave_one_out_pattern:child-array-write-relabels-parent.rdms CH
-sets_leave_one_out_pattern:parent-append-relabels-child TUCGSQH
-sets_leave_one_out_pattern:parent-array-write-relabels-child CH
-sets_leave_one_out_rdm:child-array-write-relabels-parent.rdms CH
-sets_leave_one_out_rdm:child-reorder-relabels-parent.rdms CH
-sets_leave_one_out_rdm:child-sort_by-relabels-parent.rdms TUCGSQH
-sets_leave_one_out_rdm:parent-array-write-relabels-child CH
-sets_leave_one_out_rdm:parent-reorder-relabels-child TUCGSQH
-sets_leave_one_out_rdm:parent-sort_by-relabels-child TUCGSQH
-sets_of_k_pattern:child-append-relabels-parent.rdms TUCGSQH
-sets_of_k_pattern:child-array-write-relabels-parent.rdms CH
-sets_of_k_pattern:parent-append-relabels-child TUCGSQH
-sets_of_k_pattern:parent-array-write-relabels-child CH
-sets_of_k_rdm:child-array-write-relabels-parent.rdms CH
-sets_of_k_rdm:child-reorder-relabels-parent.rdms CH
-sets_of_k_rdm:child-sort_by-relabels-parent.rdms TUCGSQH
-sets_of_k_rdm:parent-array-write-relabels-child CH
-sets_of_k_rdm:parent-reorder-relabels-child TUCGSQH
-sets_of_k_rdm:parent-sort_by-relabels-child TUCGSQH
-weight_to_matrices:child-array-write-rewrites-parent.x TUCGSQH
-weight_to_matrices:parent-array-write-rewrites-child TUCGSQH
-""".strip().split('\n'))
+# After triage (main session): nothing is skipped any more.  The nine new kinds were repaired in /repo (850dfad5: rows of
+# vector-valued descriptors are copied by subsets / resamples / from_partials; 6fc088e3: extract_variances works on a copy); the
+# re-observations of the open base findings in the families of the dimension sweep are listed in known_findings.json under
+# '<obligation>|<label>@*' (same callable, argument and in-place operation as the base entry '<obligation>|<label>').
+PENDING_NEW = {}
+PENDING_REOBSERVED = {}
 
 
 def _pending(label, family):
